@@ -675,3 +675,10 @@ mod tests {
     */
 }
 
+
+#[cfg(uflow_verif)]
+impl FrameQueue {
+    pub fn verif_log_base(&self) -> u32 {
+        self.frame_log.base_id()
+    }
+}
